@@ -13,8 +13,19 @@ ASSUMPTIONS = ["e_lfanew >= 64 in the theorems (the code does not check it; smal
                "the cryptographic signature blob is opaque to the model"]
 
 
+def _pagetable(body):
+    tbl = b""
+    for ent in body.split(","):
+        off, hx = ent.split(":")
+        tbl += struct.pack("<I", int(off))
+        tbl += b"\0" * 32 if hx == "-" else hashlib.sha256(bytes.fromhex(hx)).digest()
+    return tbl.hex()
+
+
 def canon_model(op, mres):
     f = op.split()
+    if f[1] == "pagespec" and mres.startswith("ok spec pages="):
+        return "ok spec pagehashes=" + _pagetable(mres[len("ok spec pages="):])
     if f[1] == "digest" and mres.startswith("ok stream="):
         parts = mres.split(" ")
         stream = parts[1][len("stream="):]
@@ -37,7 +48,8 @@ def canon_model(op, mres):
 # fixes F12-readOptHeader / F12-align32: where the model of the parser says the *original* code panics, the repaired code
 # returns these errors; the model keeps the panic outcome (its trigger is characterised by readHeaders_panic_iff)
 GUARDED = {"panic readOptHeader:buf[:2]": ("err eof",),
-           "panic align32:divide-by-zero": ("err other:PE_file_alignment_is_zero",)}
+           "panic align32:divide-by-zero": ("err other:PE_file_alignment_is_zero",),
+           "panic pagehash:zeroPage[:needzero]": ("err other:PE_headers_are_larger_than_a_page,_cannot_compute_page_hashes",)}
 
 
 def equiv(op, il, mres):
@@ -46,6 +58,12 @@ def equiv(op, il, mres):
     if il in GUARDED.get(mres, ()):
         return True
     f = op.split()
+    if f[1] == "pagespec":
+        # "ok skip": image outside the class of pe_page_hashes_eq_spec; "ok spec none": headers larger than a page
+        # (the description has no answer; the code panics or refuses) - nothing to compare
+        if mres in ("ok skip", "ok spec none"):
+            return il.startswith("ok spec pagehashes=") or il.startswith("panic") or il.startswith("err")
+        return False
     # the locator found the blobs; the harness' fake blobs then fail PKCS#7 parsing, which is outside the model
     if f[1] == "locate" and il == "err pkcs7" and mres.startswith("ok"):
         return True
@@ -84,6 +102,9 @@ def predicate(prop, op, il, mres, tag):
     f = op.split()
     if il.startswith("crash") or il.startswith("not-run"):
         return ("Relic.Props.%s (pe)" % prop, mres, "implementation process died")
+    if f[1] == "pagespec" and prop == "C05" and mres.startswith("ok spec pagehashes=") and il != mres:
+        return ("Relic.Props.C05.pe_page_hashes_eq_spec", mres[:120],
+                "the page-hash table the real code produced is not the table of Relic.Spec.PageHashes on a regular image: " + il[:120])
     if f[1] == "sign" and il.startswith("ok "):
         parts = il.split(" ")
         if prop in ("C08", "C01") and parts[2] != "same-digest":
